@@ -486,6 +486,14 @@ func (g *Gen) wrap(name string) *TExpr {
 		return &TExpr{NonNull: &TExpr{List: &TExpr{NonNull: e}}}
 	case 3:
 		return &TExpr{List: &TExpr{List: e}}
+	case 4:
+		if g.T.Bool(1, 2) {
+			// a matrix: non-null list of lists (of non-null members)
+			if g.T.Bool(1, 2) {
+				return &TExpr{NonNull: &TExpr{List: &TExpr{List: &TExpr{NonNull: e}}}}
+			}
+			return &TExpr{NonNull: &TExpr{List: &TExpr{List: e}}}
+		}
 	}
 	return e
 }
